@@ -19,6 +19,17 @@ CLAIMED = {
    note="Trusts the canonical dump (SAX character callbacks are coalesced; system ids are normalised). The first 48K of every entity are consumed in one go by the reader (after fix c237369), so boundary effects are exercised on the part of a document beyond that; evidence reports split_after_first_48K probes separately."),
 }
 
+CLAIMED.update({
+ "C15": dict(engine="histsim", cat="exploration", ref="5.C15",
+   technique="deterministic simulation with fault injection: seeded operation histories on one long-lived parser (faulted, abandoned, reconfigured parses) checked step by step against a freshly constructed parser; adopted documents re-checked at the end",
+   text="One long-lived parser object per run is driven through a seeded history of parses over documents that share element names, ID values and entity names, with injected handler exceptions (three flavours), stream failures, truncation, resolver failures, abandoned progressive parses (with and without parseReset), per-operation reconfiguration (scanner, validation scheme, features) and document-pool resets. After EVERY operation the canonical dump of the reused parser must equal that of a fresh parser performing only that operation; adopted documents must be unchanged at the end of the history and after the parser is destroyed.",
+   note="Grammar caching (loadGrammar / cacheGrammarFromParse / pool lock) is exercised by the cached-grammar part of this check where noted in the evidence; trust: canonical dump, same simulated world for both parsers."),
+ "C18": dict(engine="histsim", cat="fault_enumeration", ref="5.C18",
+   technique="deterministic simulation with fault injection: every ending of a parse (handler exception at each callback k, abandon after each progressive step, stream failure at each read, truncation, adopt/release orders, reuse) enumerated against a ledger MemoryManager; Initialize/Terminate nesting with a ledger global manager in every run",
+   text="Every run performs its own XMLPlatformUtils::Initialize (custom ledger global manager, nesting depth 1-3, optionally the DOM-heap overload) and Terminate. In between, for one generated world and configuration, every way the parse can end is executed on a parser that owns its own ledger manager: natural end, exception thrown from the k-th callback for every k (capped per tier), progressive parse abandoned after every step, stream failing at reads 1-3 of every entity, truncation, adoptDocument with both destruction orders, reuse. After the parser is destroyed its ledger must be empty and no foreign or double free may have occurred (freed blocks stay quarantined and ASan-poisoned for the run); after the last Terminate the global ledger must be empty; a second Initialize/Terminate cycle must reproduce the same dump.",
+   note="Blocks that bypass MemoryManager are outside the ledger (LSan not run). OutOfMemoryException endings are not judged by the leak oracle (not among the endings the statement lists; the scanners skip clean-up on it by design)."),
+})
+
 NOT_APPLICABLE = {
  "C03": "pure function of (document text, settings) to an event stream; no schedule, fault or history in it - deciding it needs an independent infoset oracle over generated inputs (property-based testing), not simulation; its only environment-dependent part (refill boundaries) is decided under C04",
  "C05": "finite pure function over code points and byte sequences, decided by enumeration, not by sampling schedules or faults; 'every buffer split position' is exercised by C04's targeted chunking",
